@@ -355,7 +355,7 @@ def h_rng(ctx, api):
     try:
         out_unknown_state = make()()
     except Exception as exc:
-        ctx.claim(False, f"{api} raised {type(exc).__name__}", info=str(exc)[:200])
+        claim_raised(ctx, f"{api}", exc)
         return
     finally:
         del rt.np.random
@@ -411,7 +411,7 @@ def h_ensure_path(ctx, k):
             core.ensure_path(name)
             files[name] = f"new{w}"
     except Exception as exc:
-        ctx.claim(False, f"ensure_path raised {type(exc).__name__}", info=str(exc)[:200])
+        claim_raised(ctx, "ensure_path", exc)
         return
     finally:
         core.os = orig
